@@ -10,7 +10,7 @@ def first_pass():
     res = {}
     for log in sorted((ROOT / "seeded").glob("first_pass*.log")):
         for line in log.read_text().splitlines():
-            m = re.match(r"(C\d\d) \S*/(C\d\d_\d(?:b)?) (detected|MISSED)", line)
+            m = re.match(r"(C\d\d) \S*/(C\d\d_\d+(?:b)?) (detected|MISSED)", line)
             if m:
                 res.setdefault(m.group(2), m.group(3))
     return res
@@ -19,7 +19,9 @@ def first_pass():
 def main():
     fp = first_pass()
     rows = []
-    rnd_of = lambda name: {"1": 1, "2": 1, "3": 2, "4": 2, "5": 3, "6": 3, "7": 4, "8": 4}.get(name[-1], 0)
+    def rnd_of(name):
+        m = re.match(r"C\d\d_(\d+)", name)
+        return (int(m.group(1)) + 1) // 2 if m else 0
     for d in sorted((ROOT / "seeded").iterdir(), key=lambda x: (rnd_of(x.name), x.name)):
         if not (d / "meta.json").exists():
             continue
